@@ -9,7 +9,7 @@ ROOT = os.path.dirname(os.path.abspath(__file__))
 CHECKS = {
  "C01": ("fault_enumeration",
    "crash-image replay: directory copied at every durable-step hook + every WAL torn-tail cut, reopened and compared with a last-write-wins model; consecutive crash cycles; injected snapshot failure",
-   "Runs seeded histories on a real tsdb.Store; hooks in the WAL, snapshot commit, FileStore.replace, tombstone commit and delete path copy the store directory at each durable step (process-kill semantics) and at each WAL sync the family of torn tails; every image is reopened with a fresh Store and every acknowledged point must be read back (the one in-flight op may go either way). Recovered images continue the history (depth 2 quick / 3 thorough); hooks firing during recovery give crash-during-recovery images. Held on the enumerated crash points of the sampled histories.",
+   "Runs seeded histories on a real tsdb.Store; hooks in the WAL, snapshot commit, FileStore.replace, tombstone commit and delete path copy the store directory at each durable step (process-kill semantics) and at each WAL sync the family of torn tails; every image is reopened with a fresh Store and every acknowledged point must be read back (the one in-flight op may go either way). Recovered images continue the history (depth 2 quick / 3 thorough); hooks firing during recovery give crash-during-recovery images. Snapshot faults: an injected error after the file was written (with an acknowledged write and a colliding snapshot request inside the failing snapshot) and a snapshot file cut in half before it is installed. Held on the enumerated crash points of the sampled histories.",
    "Crash model is process kill + WAL-tail truncation (as the property states); loss/reordering of un-fsynced page cache of other files and removed fsync calls are invisible. One sequential client. Model = harness-side last-write-wins map.",
    "DESIGN.md section 3 C01"),
  "C02": ("exploration",
@@ -29,7 +29,7 @@ CHECKS = {
    "DESIGN.md section 3 C04"),
  "C05": ("fault_enumeration",
    "in-process 3- and 4-node clusters; every fan-out statement kind re-run from every coordinator under every single fault of another node (stopped, shard disabled, connection refused, reply delayed, stream cut at seeded byte offsets) and double faults; oracle: reference answer or error",
-   "Databases with replication 1/2/3 (and 2 on four nodes) hold the same data; reference answers come from the fault-free cluster; each statement is re-run from each coordinator with a fault injected on another node through the coordinator dial hook (refuse, delay past the reader timeout, cut the response stream after k bytes), by disabling a shard on one owner (error reply), by stopping a node, and with double faults that leave some shards without a healthy owner. The answer must be the reference answer or an error, never other rows; when every shard keeps a healthy owner and the fault is visible at request time the answer must be the reference.",
+   "Databases with replication 1/2/3 (and 2 on four nodes) hold the same data; reference answers come from the fault-free cluster; each statement is re-run from each coordinator with a fault injected on another node through the coordinator dial hook (refuse, delay past the reader timeout, cut the response stream after k bytes), by disabling a shard on one owner (error reply), by stopping a node, and with double faults that leave some shards without a healthy owner. The answer must be the reference answer or an error, never other rows; when every shard keeps a healthy owner and the fault is visible at request time the answer must be the reference. Further phases: multi-source / sub-query / wildcard statements with answers computed by the harness from the loaded points; a measurement with another schema queried right after a timed-out reply; truncate-shards on a database written around 'now' (answers before = after = data); a data node that joins after all shard groups exist coordinates every statement (owns nothing).",
    "One query at a time (fault attribution); Byzantine replies out of reach; exactly-once is judged through the rows (counts/sums over disjoint shards), not through a per-shard request log; storage ReadFilter/ReadGroup path not driven.",
    "DESIGN.md section 3 C05"),
  "C06": ("exploration",
@@ -55,7 +55,7 @@ CHECKS = {
  "C10": ("exploration",
    "reference-model comparison of reads and listings after every step of delete-heavy histories; hook-scheduled interleavings (delete inside a parked / held snapshot); crash images inside the delete path",
    "Delete-heavy seeded histories on inmem and tsi1 stores: after every step (snapshots, every compaction kind, restarts) all series fields are read through both APIs and MeasurementNames/TagKeys/TagValues/SeriesCardinality are compared with the model's live-series set; deletes are also issued from inside the snap.written hook (snapshot in flight) and while an injected-failure snapshot is held for retry; crash images at del.*/tomb.committed hooks are reopened with the in-flight delete allowed either way.",
-   "Sampled histories, one sequential client; listings judged at quiescent points; delete overlapping a background level compaction is not scheduled deterministically (only through C19 stress).",
+   "Sampled histories, one sequential client; listings judged at quiescent points; a delete overlapping a level compaction is scheduled by one directed scenario (compactions re-enabled while the delete is parked in its series iterator, the compaction held at its first block), otherwise only through C19 stress.",
    "DESIGN.md section 3 C10"),
  "C11": ("exploration",
    "layout-invariance comparison of HTTP query results across physical layouts of in-process clusters + independent reference evaluator over the raw points",
@@ -74,7 +74,7 @@ CHECKS = {
    "DESIGN.md section 3 C13"),
  "C14": ("exploration",
    "twin stores (inmem + tsi1) fed the same seeded histories; after every operation ~40 listing / predicate questions per store are compared with a model of the live series evaluated by an independent predicate evaluator; race detector on; worker children under a supervisor",
-   "Seeded histories of 24-39 ops over 2-3 shards (writes creating and re-creating series from small pools, DROP SERIES / DELETE with tag and regex predicates, whole-window and partial deletes, DROP MEASUREMENT, tsi1 log->index-file and multi-level compactions with MaxIndexLogFileSize down to 1 byte, series-file compactions with lowered thresholds, snapshots, TSM compactions, reopen) are applied to an inmem and a tsi1 tsdb.Store; after every op measurements, series (by expression incl. =, !=, =~, !~, AND/OR), tag keys, tag values, cardinalities and per-shard variants are asked of both and compared with the model answer: nothing written missing, nothing dropped lingering or returning, both index types equal.",
+   "Seeded histories of 24-39 ops over 2-3 shards (writes creating and re-creating series from small pools, DROP SERIES / DELETE with tag and regex predicates, whole-window and partial deletes, DROP MEASUREMENT, tsi1 log->index-file and multi-level compactions with MaxIndexLogFileSize down to 1 byte, series-file compactions with lowered thresholds, snapshots, TSM compactions, reopen) are applied to an inmem and a tsi1 tsdb.Store; after every op measurements, series (by expression incl. =, !=, =~, !~, AND/OR), tag keys, tag values, cardinalities and per-shard variants are asked of both and compared with the model answer: nothing written missing, nothing dropped lingering or returning, both index types equal. The shards alternate between two retention policies of the database; a quarter of the histories follow a scripted drop / re-create / index-compaction / reopen sequence with MaxIndexLogFileSize=1.",
    "Sampled histories; measurement-level NOT/AND forms of SHOW MEASUREMENTS WHERE are not judged (meaning unclear); sketch estimates only sanity-checked; multi-measurement deletes on tsi1 with tiny log files are issued per measurement to avoid a known hang (recorded under C19).",
    "DESIGN.md section 3 C14"),
  "C15": ("fault_enumeration",
@@ -94,7 +94,7 @@ CHECKS = {
    "DESIGN.md section 3 C17"),
  "C18": ("exploration",
    "model comparison of restored/exported/copied shards against the source at backup time (both read APIs); live backup racing a writer with prefix oracle; copy-shard on a real cluster with the backup stream cut at seeded and tar-entry-boundary offsets",
-   "Sources come from seeded histories ending in every mixture of cache / file generations / pending tombstones; BackupShard -> RestoreShard into a second store must read like the source (and reopen), the source must be unchanged, ExportShard must agree inside its range, a backup racing a writer must hold a prefix of the acknowledged writes that includes everything acknowledged before the call (also with a cache snapshot parked); on a 3-node cluster copy-shard through the meta endpoint is judged: success => destination content equals source and owner added, failure => owner list unchanged, with the backup stream cut through the dial hook.",
+   "Sources come from seeded histories ending in every mixture of cache / file generations / pending tombstones; BackupShard -> RestoreShard into a second store must read like the source (and reopen), the source must be unchanged, ExportShard must agree inside its range, a backup racing a writer must hold a prefix of the acknowledged writes that includes everything acknowledged before the call (also with a cache snapshot parked); on a 3-node cluster copy-shard through the meta endpoint is judged: success => destination content equals source and owner added, failure => owner list unchanged, with the backup stream cut through the dial hook, and the copy repeated (healthy network) after every failure; the cache flush inside BackupShard is made to fail once (refused or complete).",
    "Sampled histories; outside an export's time range only 'never written' data counts as foreign; destination stopped mid-restore and source stopped mid-copy are approximated by stream cuts.",
    "DESIGN.md section 3 C18"),
  "C19": ("exploration",
